@@ -130,10 +130,18 @@ func c12N(tier int) int {
 	return 5
 }
 
-func N_C12_HasMany(tier int) int { return c12N(tier) }
+// one more shape after the shared ones: two operations on one Association value, the
+// first through Unscoped(), the second on the value itself (scoped)
+func N_C12_HasMany(tier int) int { return c12N(tier) + 1 }
 
 func H_C12_HasMany(shape int) {
-	sh := c12Shapes[shape]
+	firstOnly := shape == c12N(verifrt.Tier())
+	var sh c12Shape
+	if firstOnly {
+		sh = c12Shape{"nn", false, true}
+	} else {
+		sh = c12Shapes[shape]
+	}
 	nops, unscoped := len(sh.ops), sh.unscoped
 	mdb := NewMemDB()
 	owners := mdb.AddTable("owners", []string{"id", "name", "companyid"}, []string{"id"})
@@ -197,7 +205,8 @@ func H_C12_HasMany(shape int) {
 			assoc = db.Model(&o).Association("Pets")
 		}
 		a := assoc
-		if unscoped {
+		opUnscoped := unscoped && (!firstOnly || k == 0)
+		if opUnscoped {
 			a = a.Unscoped()
 		}
 		var err error
@@ -219,7 +228,7 @@ func H_C12_HasMany(shape int) {
 			ids = append(ids, int(v.ID))
 		}
 		unlink := func(i int) {
-			if unscoped {
+			if opUnscoped {
 				model.rows = append(model.rows[:i:i], model.rows[i+1:]...)
 			} else {
 				model.rows[i].owner = 0
@@ -1406,6 +1415,147 @@ func H_C12_BelongsToRef(shape int) {
 			verifrt.Assert(o.RegionCode == link && o.Region != nil && o.Region.Code == link, "C12.in-memory:"+label)
 		}
 		verifrt.Observe("link", link)
+	}
+	verifrt.Observe("log", s.Kinds())
+}
+
+// ---- has many through a reference column that is not the owner's primary key
+// (Rack.Boxes: boxes.rackcode -> racks.code); the owner's key (1) differs from
+// every value of the reference column
+
+func N_C12_HasManyRef(tier int) int {
+	if tier > 0 {
+		return 3
+	}
+	return 2
+}
+
+func H_C12_HasManyRef(shape int) {
+	nops := 1 + shape
+	mdb := NewMemDB()
+	racks := mdb.AddTable("racks", []string{"id", "code"}, []string{"id"})
+	racks.AddRow(1, "r1")
+	racks.AddRow(2, "r2")
+	boxes := mdb.AddTable("boxs", []string{"id", "rackcode", "name"}, []string{"id"})
+	// box 2 belongs to the rack operated on, box 3 to the other rack or to none
+	r1, r2 := "r1", "r2"
+	links := map[int]string{2: "r1"} // box id -> rack code ("" = none)
+	boxes.AddRow(2, "r1", "b")
+	o := Rack{ID: 1, Code: "r1", Boxes: []Box{{ID: 2, RackCode: &r1, Name: "b"}}}
+	switch verifrt.Concretize(verifrt.Intn("box3", 0, 2), 0, 2) {
+	case 0:
+		boxes.AddRow(3, nil, "b")
+		links[3] = ""
+	case 1:
+		boxes.AddRow(3, "r2", "b")
+		links[3] = "r2"
+	case 2:
+		boxes.AddRow(3, "r1", "b")
+		links[3] = "r1"
+		o.Boxes = append(o.Boxes, Box{ID: 3, RackCode: &r1, Name: "b"})
+	}
+	_ = r2
+	order := []int{2, 3}
+	mdb.Snapshot()
+	s := NewStore()
+	s.OnExecE = mdb.Exec
+	s.OnQuery = mdb.Query
+	db := openReal(stubDialector{nullDefault: true}, s, nil)
+	var kinds []int
+	defer func() { mdb.Dump(c12Label("has-many-ref", kinds, false)) }()
+	assoc := db.Model(&o).Association("Boxes")
+	assoc = nil
+	for k := 0; k < nops; k++ {
+		tag := "op" + string([]byte{byte('0' + k)})
+		kind := verifrt.Concretize(verifrt.Intn(tag+"_kind", 0, 3), 0, 3)
+		kinds = append(kinds, kind)
+		var target *Box
+		if kind != 3 {
+			if kind != 2 && verifrt.Bool(tag+"_new") {
+				target = &Box{Name: "n"}
+			} else {
+				id := []int{2, 3}[verifrt.Concretize(verifrt.Intn(tag+"_id", 0, 1), 0, 1)]
+				target = &Box{ID: uint(id), Name: "b"}
+			}
+		}
+		label := c12Label("has-many-ref", kinds, false)
+		verifrt.Tag(label)
+		if assoc == nil || k == 2 {
+			assoc = db.Model(&o).Association("Boxes")
+		}
+		a := assoc
+		var err error
+		switch kind {
+		case 0:
+			err = a.Append(target)
+		case 1:
+			err = a.Replace(target)
+		case 2:
+			err = a.Delete(target)
+		case 3:
+			err = a.Clear()
+		}
+		verifrt.Assert(err == nil, "C12.error:"+label)
+		unlinkAll := func(except int) {
+			for id, c := range links {
+				if c == "r1" && id != except {
+					links[id] = ""
+				}
+			}
+		}
+		switch kind {
+		case 0, 1:
+			verifrt.Assert(target.ID != 0, "C12.target-without-key:"+label)
+			id := int(target.ID)
+			if kind == 1 {
+				unlinkAll(id)
+			}
+			if _, ok := links[id]; !ok {
+				order = append(order, id)
+			}
+			links[id] = "r1"
+		case 2:
+			if links[int(target.ID)] == "r1" {
+				links[int(target.ID)] = ""
+			}
+		case 3:
+			unlinkAll(0)
+		}
+		verifrt.Reach("op-applied")
+		// stored links; boxes survive
+		ci := boxes.colIdx("rackcode")
+		verifrt.Assert(len(boxes.rows) == len(order), "C12.rows-lost-or-added:"+label)
+		for _, r := range boxes.rows {
+			c, ok := links[r[0].i]
+			verifrt.Assert(ok, "C12.rows-lost-or-added:"+label)
+			if c == "" {
+				verifrt.Assert(r[ci].null, "C12.stored-links:"+label)
+			} else {
+				verifrt.Assert(!r[ci].null && r[ci].i == internStr(c), "C12.stored-links:"+label)
+			}
+		}
+		var want []int
+		for _, id := range order {
+			if links[id] == "r1" {
+				want = append(want, id)
+			}
+		}
+		n := db.Model(&Rack{ID: 1, Code: "r1"}).Association("Boxes").Count()
+		verifrt.Assert(n == int64(len(want)), "C12.count:"+label)
+		verifrt.Assert(a.Count() == n, "C12.count-on-used-value:"+label)
+		var found []Box
+		verifrt.Assert(db.Model(&Rack{ID: 1, Code: "r1"}).Association("Boxes").Find(&found) == nil, "C12.error:"+label)
+		var got []int
+		for _, b := range found {
+			got = append(got, int(b.ID))
+		}
+		c12SameSet(got, want, "C12.find:"+label)
+		var mem []int
+		for _, b := range o.Boxes {
+			mem = append(mem, int(b.ID))
+		}
+		c12SameSet(mem, want, "C12.in-memory:"+label)
+		verifrt.Observe("links", len(want))
 	}
 	verifrt.Observe("log", s.Kinds())
 }
